@@ -3,7 +3,7 @@
    whose items reach no other NamedTuple).  Model: TyNtDict.v -- the generated expression
    {'a': p_a(value[0]), 'b': p_b(value[1]), ...} with the item packers of TyModel.v; tied to /repo by the
    per-run vm_compute correspondence (BasicEncoder(C, default_dialect=D)) and to the emitted code by
-   kernel K43 (C03_ntdict_kernel.v). *)
+   kernel K45 (C03_ntdict_kernel.v). *)
 From Coq Require Import List String ZArith Bool.
 From Verif Require Import Core TyModel TyProofs TyBasic TyNtDict TyNtDictProofs.
 Import ListNotations.
